@@ -64,6 +64,8 @@ STORE = Store()
 CALLS = []
 # (operation, object, pool_scope the backend was handed): a pool-aware backend decides by it where to look
 SCOPES_SEEN = []
+# (object, show_location the presence lookup was made with)
+LOCATIONS_SEEN = []
 
 
 def object_key(params):
@@ -82,6 +84,7 @@ class MemBackend(ss.StateBackend):
     @classmethod
     def show(cls, params, object=None):
         SCOPES_SEEN.append(("show", object_key(params), params.get("pool_scope")))
+        LOCATIONS_SEEN.append((object_key(params), params.get("show_location")))
         return sorted(STORE.entry(object_key(params))["states"])
 
     @classmethod
@@ -298,6 +301,10 @@ def build_params(case):
     params["states_nets"] = params["states_vms"] = params["states_images"] = "mem"
     if case.get("pool_scope"):
         params["pool_scope"] = case["pool_scope"]
+    if case.get("locations"):
+        # a configured listing location and another location the operation itself addresses
+        params["show_location"] = case["locations"]["show"]
+        params[f"{case['op']}_location"] = case["locations"]["op"]
     if case.get("skip_types"):
         params["skip_types"] = " ".join(case["skip_types"])
     op = case["op"]
@@ -348,6 +355,7 @@ def run_case(case, store_spec):
     STORE = Store(store_spec)
     del CALLS[:]
     del SCOPES_SEEN[:]
+    del LOCATIONS_SEEN[:]
     model_store = Store(store_spec)
     model_calls, outcome = model_run(case, model_store)
     model_calls = normalise(model_calls)
@@ -389,6 +397,13 @@ def run_case(case, store_spec):
         if wrong:
             problem = ("a state operation reached the backend with another pool_scope than the configured one",
                        f"configured {case['pool_scope']!r}; {wrong[:3]}")
+    if problem is None and case.get("locations") and case["op"] in ("get", "set", "unset"):
+        # whether the state is there is looked up where the operation will act
+        EVALS["location_observations"] += len(LOCATIONS_SEEN)
+        wrong = [entry for entry in LOCATIONS_SEEN if entry[1] != case["locations"]["op"]]
+        if wrong:
+            problem = ("the presence of a state was looked up in another location than the one the operation addresses",
+                       f"{case['op']}_location {case['locations']['op']!r}, show_location {case['locations']['show']!r}; looked up with {wrong[:3]}")
     return problem, after
 
 
@@ -469,6 +484,9 @@ def random_call(rng, vms, images, op=None, hostile=True):
     case = {"op": op, "vms": vms, "images": images, "objects": objects}
     if rng.random() < 0.5:
         case["pool_scope"] = rng.choice(["own", "own shared", "own swarm cluster shared", "swarm shared"])
+    if op in ("get", "set", "unset") and rng.random() < 0.3:
+        case["locations"] = {"show": ":/mnt/local/images/shared", "op": rng.choice([":/mnt/local/images/shared net2:/mnt/local/images/swarm",
+                                                                                  "net2:/mnt/local/images/swarm", ":/mnt/local/images/shared"])}
     if rng.random() < 0.25:
         case["skip_types"] = rng.sample(["nets", "nets/vms", "nets/vms/images"], rng.randint(1, 2))
     return case
@@ -556,6 +574,7 @@ def main():
         verdict.count("sequences")
     verdict.count("icontract_postconditions_evaluated", EVALS["postconditions"])
     verdict.count("pool_scope_observations", EVALS["scope_observations"])
+    verdict.count("lookup_location_observations", EVALS["location_observations"])
     verdict.extra["enumerated_table_complete"] = True
     sys.exit(verdict.finish(min_counters=["icontract_postconditions_evaluated", "enumerated_single_calls", "sequence_steps"]))
 
